@@ -121,14 +121,15 @@ CHECKS.update({
                 technique="TLA+ verdict rules (Group.tla) and concrete group semantics on the Avm machine (GroupSem.tla) judged by TLC "
                           "against the real group-mode detectors on TLC-generated configurations"),
     "C14": dict(level="model_checking", design_ref="DESIGN.md §5 C14",
-                text="Histories of Session.tla (all ordered pairs of contracts, and random histories of up to three actions: analyse contract c with detector order o, re-run) over ten "
-                     "sensitising contracts are replayed each in one fresh interpreter under rotating PYTHONHASHSEED values; the "
+                text="Histories of Session.tla (all ordered pairs of contracts, and random histories of up to three actions: analyse contract c with detector order o, re-run) over fourteen "
+                     "sensitising contracts, all analysed under one contract name, are replayed each in one fresh interpreter under rotating PYTHONHASHSEED values; the "
                      "digests of contexts / ordered paths / JSON recorded after every action are validated as a trace of Session "
                      "with Result = the digest of a fresh single-action process (SessionTrace.tla).  Worklist orders: the "
                      "forward/backward dataflow engine is the state machine Solver.tla; runs of the real engine recorded through "
                      "the TEALER_VERIF hooks are validated event by event (SolverTrace.tla, corrupted copies must be rejected) and "
                      "TLC explores every worklist order on the recorded graph and constraints, all of which must end with the "
-                     "recorded result (SolverAny.tla).",
+                     "recorded result, and on every transition of every order the engine's design properties Ascending, Progress "
+                     "(termination measure), Bounded, FwdFix / BwdFix (empty worklist = fixpoint) and BwdInFwd (SolverAny.tla).",
                 technique="trace validation of recorded process histories and of hook-recorded runs of the dataflow engine against "
                           "TLA+ specifications with TLC; exhaustive exploration of all worklist orders on the recorded instances"),
     "C15": dict(level="exploration", design_ref="DESIGN.md §5 C15",
